@@ -44,7 +44,7 @@ func C04(c *core.Ctx) {
 			return keep
 		})
 	}
-	ruleMultiSel(c, ruleSet("A-REQ", "A-NOEXTRA"), 1, "differing only in required")
+	ruleMultiSel(c, ruleSet("A-REQ", "A-NOEXTRA", "A-MAP"), 2, "differing only in required", "pure allOf composition")
 	c.Floor("families", c.Counts["members"], 100, "family members")
 }
 
